@@ -29,12 +29,17 @@ def body_range(text):
 
 results = []
 t0 = time.time()
+MODE = os.environ.get("MUT_MODE", "ops")
 for f in FILES:
     path = os.path.join(WT, f)
     orig = open(path).read()
     lo, hi = body_range(orig)
     seen = set()
-    for pat, rep in OPS:
+    ops = OPS
+    if MODE == "delete":
+        # statement deletion: every single-line statement that is not a `let`, a `use`, or a closing line
+        ops = [(r"(?m)^[ \t]+(?!let |use |//|#\[|pub |fn |\}|\)|\.)[^\n{}]*;[ \t]*$", "")]
+    for pat, rep in ops:
         for m in re.finditer(pat, orig[lo:hi]):
             a, b = lo + m.start(), lo + m.end()
             line_start = orig.rfind("\n", 0, a) + 1
